@@ -14,7 +14,7 @@ for pid in sorted(PROPS):
         "thorough_cmd": "./check %s thorough" % pid,
         "evidence_file": "/verif/evidence/%s.json" % pid,
         "replay_cmd_template": "./check %s --replay {path}" % pid,
-        "engine": "conduit-sim",
+        "engine": "registry-sim" if "script" in PROPS[pid] else "conduit-sim",
         "level_claimed": {"category": PROPS[pid]["level"], "text": t["level_text"], "design_ref": t["design_ref"]},
         "level_note": t["level_note"],
         "technique": t["technique"],
@@ -31,8 +31,12 @@ m = {
     },
     "engines": [{
         "name": "conduit-sim", "path": "/verif/harness",
-        "serves_properties": sorted(PROPS),
-        "kind_free_text": "deterministic simulation with fault injection: the real engine inside a testing/synctest bubble, all seams (plugins, store, clock, clients) simulator-owned, one PRNG-driven scheduler releasing one parked seam call at a time",
+        "serves_properties": sorted(p for p in PROPS if "script" not in PROPS[p]),
+        "kind_free_text": "deterministic simulation with fault injection: the real engine inside a testing/synctest bubble, all seams (plugins, store, clock, clients) simulator-owned, one PRNG-driven scheduler releasing one parked seam call (or one goroutine waiting at a gate) at a time",
+    }, {
+        "name": "registry-sim", "path": "/verif/registrysim",
+        "serves_properties": sorted(p for p in PROPS if "script" in PROPS[p]),
+        "kind_free_text": "crash-point and fault enumeration of the real registry install pipeline on a scratch directory tree: os calls behind an injected shim, in-process network, scripted verifier",
     }],
     "checks": checks,
     "not_applicable": NOT_APPLICABLE,
